@@ -74,7 +74,7 @@ def _typestate(sg, start, acq_pred, rel_pred):
 def r14_1(ctx, rc, only=None):
     R = ctx.R
     G = guards(ctx)
-    stop = set(G.all) | {G.replay}
+    stop = G.opaque
     ctx.E.func(RESERVE)
     ctx.E.func(RELEASE)
     sites = 0
@@ -257,6 +257,31 @@ def r14_3(ctx, rc):
                     o[0] == 'call' and False) for o in org) or \
                     _derives_from_param(ctx, H, call.args[0], cn):
                 ok = True
+    # ... or through a private helper of the same class that H hands the
+    # (derived) directory to
+    for call in prog.calls_in(H):
+        for g in prog.resolve_call(call, H):
+            if not (isinstance(g, Func) and g.cls == H.cls and
+                    not g.is_public and not g.is_ctor_call):
+                continue
+            b = prog.bind_args(call, g)
+            cn = ctx.H.node_of(H, call)[0]
+            for c2 in prog.calls_in(g):
+                fn = c2.func
+                if not (isinstance(fn, ast.Attribute) and
+                        fn.attr in ('add', 'update') and isinstance(
+                            fn.value, ast.Attribute) and
+                        fn.value.attr == gattr and c2.args):
+                    continue
+                cn2 = ctx.H.node_of(g, c2)[0]
+                for p2, a in b.items():
+                    if isinstance(a, ast.AST) and _derives_from_param(
+                            ctx, g, c2.args[0], cn2) and any(
+                                isinstance(x, ast.Name) and x.id == p2
+                                for x in ast.walk(ctx.H.subst(
+                                    c2.args[0], g, cn2))) and \
+                            _derives_from_param(ctx, H, a, cn):
+                        ok = True
     key = '%s records its argument in %s' % (handoff, gattr)
     if ok:
         rc.ok({'set': gattr}, key=key)
